@@ -754,6 +754,7 @@ class GroupBy:
         if (
             (n_values == 1)
             and isinstance(values, ArrayType1D)
+            and np.ndim(values) == 1  # a 2-D array with one column is still a collection
             or isinstance(values, list)
             and np.ndim(values[0]) == 0
         ):
